@@ -139,6 +139,18 @@ fn evaluate(
 		)
 	};
 	let _ = acq_rel;
+	let healthy_leak = held_after.iter().any(|(l, _)| !faulted.contains(l));
+	if healthy_leak {
+		// C03 in its own words: the call unwound and the key is back, yet a covered lock is held
+		if let Some(k) = ThreadKey::get() {
+			drop(k);
+			w.violate(
+				"C03",
+				"key_back_while_holding",
+				format!("a call unwound by a raw-lock panic gave the key back while the thread still holds {:?}", held_after),
+			);
+		}
+	}
 	for (l, m) in &held_after {
 		if faulted.contains(l) {
 			continue;
@@ -375,6 +387,66 @@ pub fn run(cfg: &RunCfg) -> Report {
 							}
 						}
 					}
+					// ---- two members whose unlock always panics, every pair of positions
+					// (only through the scoped APIs: their releases go through the collection-level
+					// release loop; with guards, a second panicking unlock happens inside a
+					// destructor that runs during unwinding, which aborts the process in any Rust
+					// program)
+					let two_faults_ok = matches!(api, Api::Scoped | Api::ScopedTry) && !matches!(target, Target::Leaf(_));
+					for p1 in 0..n_leaves {
+						if !two_faults_ok {
+							break;
+						}
+						for p2 in p1 + 1..n_leaves {
+							let (res, out) = solo(arena_spec, Policy::ReaderPref, cfg.only.is_some(), |tc| {
+								let w = tc.w.clone();
+								let ids = expected_ids(tc.arena, target);
+								place(&w, &ids, asg, blocking);
+								w.set_persistent_fault(ids[p1], PF_UNLOCK);
+								w.set_persistent_fault(ids[p2], PF_UNLOCK);
+								tc.try_max = 1;
+								let r = guarded(|| tc.run_acq(&acq));
+								let info = w.g().fault_info.clone();
+								let v = evaluate(tc, &r, true);
+								(v, info)
+							});
+							rep.evaluations += 1;
+							let Some((viol, info)) = res else { continue };
+							let Some(info) = info else { continue };
+							rep.count("double_persistent_fault_runs_fired", 1);
+							let case = format!(
+								"{case0} | {} pre-held={} | unlock always panics on leaf positions {p1} and {p2}; first fired in '{}'",
+								acq_desc(&acq),
+								asg_str(asg),
+								info.call_label
+							);
+							rep.nontrivial.insert(hash_str(&case));
+							for (rule, detail) in viol {
+								rep.violations.push(VRec {
+									prop: "C12".into(),
+									rule: rule.clone(),
+									detail,
+									signature: format!("C12:{rule}:{kind}:{}:{}:two_unlock_faults", api.name(), mode.ch()),
+									case: case.clone(),
+									index: i,
+									log: out.log.iter().rev().take(80).rev().cloned().collect(),
+								});
+							}
+							for v in &out.violations {
+								if v.prop == "C03" {
+									rep.violations.push(VRec {
+										prop: "C03".into(),
+										rule: v.rule.into(),
+										detail: v.detail.clone(),
+										signature: sig_of(v),
+										case: case.clone(),
+										index: i,
+										log: vec![],
+									});
+								}
+							}
+						}
+					}
 					for k in 0..n_ops {
 						for phase in [Phase::Before, Phase::After] {
 							let (res, out) = solo(arena_spec, Policy::ReaderPref, cfg.only.is_some(), |tc| {
@@ -421,6 +493,19 @@ pub fn run(cfg: &RunCfg) -> Report {
 							rep.nontrivial.insert(hash_str(&case));
 							if rep.samples.len() < 3 && (k + i as u32) % 29 == 0 {
 								rep.samples.push(J::obj(vec![("case", J::s(&case)), ("violations", J::u(viol.len() as u64))]));
+							}
+							for v in &out.violations {
+								if v.prop == "C03" {
+									rep.violations.push(VRec {
+										prop: "C03".into(),
+										rule: v.rule.into(),
+										detail: v.detail.clone(),
+										signature: sig_of(v),
+										case: case.clone(),
+										index: i,
+										log: vec![],
+									});
+								}
 							}
 							for (rule, detail) in viol {
 								rep.violations.push(VRec {
